@@ -177,7 +177,7 @@ class Rewriter:
     def format_macros(self, text):
         """R12: `format!(fmt, args..)` only ever builds error-message text here; it becomes an opaque String producer.
         R17: `eprintln!(fmt, args..)` (diagnostics on stderr) is dropped.  In both cases the ARGUMENT expressions are still
-        evaluated (`let _ = (args);`), so their slicing / `?` obligations and control flow are kept."""
+        evaluated (`let _ = &(args);`), so their slicing / `?` obligations and control flow are kept."""
         for macro, rule in (('format', 'R12'), ('eprintln', 'R17')):
             while True:
                 m = mask(text)
@@ -186,7 +186,7 @@ class Rewriter:
                     break
                 c = match_close(m, mm.end() - 1)
                 args = split_top_commas(text[mm.end():c])[1:]
-                keep = ('let _ = (%s); ' % ', '.join(args)) if args else ''
+                keep = ('let _ = &(%s); ' % ', '.join(args)) if args else ''
                 if macro == 'format':
                     rep = ('{ %sopaque_msg() }' % keep) if keep else 'opaque_msg()'
                     self.log.append((rule, 'format!(..) -> opaque_msg()' + (' (arguments still evaluated)' if keep else '')))
@@ -283,6 +283,16 @@ class Rewriter:
                     return ('let __hi_%s: usize = %s;\n        let mut %s: usize = %s;\n        while %s <= __hi_%s {%s    %s += 1;\n        }' %
                             (i, hi, i, lo, i, i, body, i))
                 text = self._rewrite_counted(text, hdr, build)
+            elif frag.startswith('byval:'):
+                # R20: `for V in NAME {` consuming the Vec NAME by value, the body only reading the items
+                # -> iteration by reference (then the index loop of R1); NAME must not be used afterwards (rustc checks that on the real code)
+                name = frag[len('byval:'):].strip()
+                m20 = re.search(r'\bfor\s+(\w+)\s+in\s+%s\s*\{' % re.escape(name), text)
+                if not m20:
+                    raise SrcError('R20: no `for .. in %s {`' % name)
+                self.log.append(('R20', 'for %s in %s (by value, items only read) -> iteration by reference' % (m20.group(1), name)))
+                text = text[:m20.start()] + 'for %s in %s.iter() {' % (m20.group(1), name) + text[m20.end():]
+                text = self.range_loops(text, ['iter:'])
             elif frag.startswith('itermut:') or frag.startswith('iter:'):
                 # R7 / R1': for V in <iterable over a Vec/slice place> { B } -> index loop.
                 # iterable := &[mut] BASE | BASE.iter() | BASE.iter_mut(), BASE may end in a range
@@ -403,6 +413,11 @@ class Rewriter:
 
     # ---------------------------------------------------------------- explicit, spec-listed substitutions
     def substitute(self, text, rule, frm, to, expect=None):
+        if hasattr(frm, 'pattern'):
+            text2, n = frm.subn(to, text)
+            if n:
+                self.log.append((rule, 'idiom /%s/ -> %r x%d' % (frm.pattern, to, n)))
+            return text2
         n = text.count(frm)
         if n == 0 or (expect is not None and n != expect):
             raise SrcError('substitution anchor lost (%s): %r occurs %d times' % (rule, frm, n))
